@@ -26,7 +26,7 @@ Open Scope Z_scope.
 
 Inductive otype := TSym | TPub | TPriv | TSplit | TCert | TSecret | TOpaque.
 
-Record obj := { uid : Z; owner : Z; oty : otype }.
+Record obj := { uid : Z; owner : Z; oty : otype; opol : Z }.    (* opol: Operation Policy Name, 0 = 'default', 1 = 'team' *)
 Record store := { objs : list obj; next_uid : Z }.
 
 Definition init_store : store := {| objs := []; next_uid := 1 |}.
@@ -35,10 +35,18 @@ Definition uids (st : store) : list Z := map uid (objs st).
 Definition find_obj (u : Z) (st : store) : option obj := find (fun o => uid o =? u) (objs st).
 Definition live (u : Z) (st : store) : bool := existsb (fun o => uid o =? u) (objs st).
 
-(* ---------- access control (the shipped 'default' policy, client groups None) ----------
-   kmip/core/policy.py: every operation on every stored type is ALLOW_OWNER, except
-   Locate / Get / GetAttributes / GetAttributeList on PublicKey and Certificate (ALLOW_ALL).
-   harness/c07.py re-reads the policy table on every run and fails when this no longer holds. *)
+(* ---------- access control ----------
+   Two operation policies are in force (harness/c07.py POLICIES, re-checked against kmip/core/policy.py every run):
+     'default' (shipped): preset only - every operation on every stored type is ALLOW_OWNER, except
+        Locate / Get / GetAttributes / GetAttributeList on PublicKey and Certificate (ALLOW_ALL); no group sections.
+     'team': the same preset, plus a section for the group 'custodians' with ALLOW_ALL for every operation.
+   A requester is a user with a group list; _is_allowed_by_operation_policy asks the preset when the list is None
+   and otherwise each group's section (a policy without that section allows nothing - also not to the owner).
+   Requesters are encoded as  user + 100 * group_code :
+     0 = groups None, 1 = ['custodians'], 2 = ['other'], 3 = ['other', 'custodians'], 4 = []. *)
+
+Definition user_of (w : Z) : Z := w mod 100.
+Definition group_code (w : Z) : Z := w / 100.
 
 Inductive pop := PGet | PGetAttributes | PGetAttributeList | PLocate | PActivate | PRevoke | PDestroy
                | PDeleteAttribute | PModifyAttribute | PSetAttribute.
@@ -47,7 +55,10 @@ Definition world_readable (t : otype) : bool := match t with TPub | TCert => tru
 Definition read_op (p : pop) : bool :=
   match p with PGet | PGetAttributes | PGetAttributeList | PLocate => true | _ => false end.
 Definition permitted (who : Z) (p : pop) (o : obj) : bool :=
-  (who =? owner o) || (world_readable (oty o) && read_op p).
+  let g := group_code who in
+  if (g =? 1) || (g =? 3) then opol o =? 1                       (* the 'custodians' section exists in 'team' only *)
+  else if (g =? 2) || (g =? 4) then false                         (* no section for 'other'; empty list: nothing asked *)
+  else (user_of who =? owner o) || (world_readable (oty o) && read_op p).     (* preset of either policy *)
 
 (* _get_object_with_access_controls: _get_object_type (ItemNotFound) then the policy (PermissionDenied) *)
 Inductive access_r := ANotFound | ADenied | AOk (o : obj).
@@ -89,10 +100,10 @@ Definition min_version (k : akind) : Z :=
   end.
 
 Inductive op :=
-| OCreate                                   (* symmetric key *)
-| OCreateKeyPair                            (* public key first, then private key *)
-| ORegister (t : otype)
-| ODeriveKey (bases : list Z) (t : otype)
+| OCreate (pol : Z)                         (* symmetric key; pol = Operation Policy Name of the template *)
+| OCreateKeyPair (pol : Z)                  (* public key first, then private key *)
+| ORegister (t : otype) (pol : Z)
+| ODeriveKey (bases : list Z) (t : otype) (pol : Z)
 | ODestroy (tgt : option Z)
 | OAddr (k : akind) (tgt : option Z)
 | OGetWrapped (tgt : option Z) (w : Z)      (* Get with a key wrapping specification naming encryption key w *)
@@ -112,13 +123,13 @@ Inductive resp :=
 | RLocated (ids : list Z)     (* ascending *)
 | RNotSupported.              (* OPERATION_NOT_SUPPORTED by the protocol version *)
 
-Definition mk (u who : Z) (t : otype) : obj := {| uid := u; owner := who; oty := t |}.
+Definition mk (u who : Z) (t : otype * Z) : obj := {| uid := u; owner := user_of who; oty := fst t; opol := snd t |}.
 
 (* session.add + commit: AUTOINCREMENT hands out next_uid, next_uid+1, ... and never goes back *)
-Definition add_one (who : Z) (t : otype) (st : store) : Z * store :=
+Definition add_one (who : Z) (t : otype * Z) (st : store) : Z * store :=
   let n := next_uid st in (n, {| objs := objs st ++ [mk n who t]; next_uid := n + 1 |}).
 
-Fixpoint add_objs (who : Z) (ts : list otype) (st : store) : list Z * store :=
+Fixpoint add_objs (who : Z) (ts : list (otype * Z)) (st : store) : list Z * store :=
   match ts with
   | [] => ([], st)
   | t :: ts' => let '(n, st1) := add_one who t st in
@@ -144,7 +155,7 @@ Definition resolve (tgt ph : option Z) : option Z := match tgt with Some u => So
 
 Definition last_id (ids : list Z) : option Z := match rev ids with x :: _ => Some x | [] => None end.
 
-Definition create (who : Z) (ts : list otype) (gate : bool) (st : store) (ph : option Z)
+Definition create (who : Z) (ts : list (otype * Z)) (gate : bool) (st : store) (ph : option Z)
   : resp * store * option Z :=
   if gate then let '(ids, st') := add_objs who ts st in (RIssued ids, st', match last_id ids with Some x => Some x | None => ph end)
   else (RFailed, st, ph).
@@ -155,12 +166,12 @@ Definition create (who : Z) (ts : list otype) (gate : bool) (st : store) (ph : o
 Definition step_item (ver who : Z) (st : store) (ph : option Z) (it : item) : resp * store * option Z :=
   let gate := i_gate it in
   match i_op it with
-  | OCreate => create who [TSym] gate st ph
-  | OCreateKeyPair => create who [TPub; TPriv] gate st ph
-  | ORegister t => create who [t] gate st ph
-  | ODeriveKey bases t =>
+  | OCreate pol => create who [(TSym, pol)] gate st ph
+  | OCreateKeyPair pol => create who [(TPub, pol); (TPriv, pol)] gate st ph
+  | ORegister t pol => create who [(t, pol)] gate st ph
+  | ODeriveKey bases t pol =>
       match check_bases who st bases with
-      | BOk => create who [t] gate st ph
+      | BOk => create who [(t, pol)] gate st ph
       | BNotFound => (RNotFound, st, ph)
       | BDenied => (RDenied, st, ph)
       end
